@@ -250,7 +250,19 @@ def cases(draw):
                     inst[2][oi] = new_
                     applied = "case-variant"
         elif n["kind"] == "inst":
-            if mut in ("last-operand", "prefix-ext", "unrelated-op", "other-member", "non-member", "wrong-width") and inst[1]:
+            if mut in ("other-member", "non-member") and len(inst[1]) < 4 and " " not in "".join(inst[1]):
+                # the later instruction is the bound one plus ONE MORE operand at the end (`imul %rbx` / `imul %rbx,%rax`): not the
+                # same text; or one operand fewer
+                o = draw(st.sampled_from(OPERANDS))
+                if inst[1] and draw(st.integers(0, 2)) == 0:
+                    inst[1].pop()
+                    inst[2].pop()
+                    applied = "inst-operand-removed"
+                else:
+                    inst[1].append(o[0])
+                    inst[2].append(o[1])
+                    applied = "inst-extra-operand"
+            elif mut in ("last-operand", "prefix-ext", "unrelated-op", "other-member", "non-member", "wrong-width") and inst[1]:
                 o = draw(st.sampled_from(OPERANDS))
                 if o[1] != inst[2][-1]:
                     inst[1][-1], inst[2][-1] = o[0], o[1]
